@@ -7,7 +7,7 @@ from mc.ref import refurl, refpsl, vocab
 PROP = "C06"
 B_HOST = ["a.com", "b.a.co.uk", "télérama.fr", "facebook.com", "youtube.com", "shop.example.org"]
 B_PATH = ["", "/p", "/P/Q.html", "/a b/É", "/embed/dQw4w9WgXcQ"]
-BASE = [("b_host", B_HOST), ("b_path", B_PATH), ("b_query", list(range(len(nvar.B_QUERY))))]
+BASE = [("b_host", B_HOST), ("b_path", B_PATH), ("b_query", list(range(len(nvar.B_QUERY)))), ("b_frag", ["", "/home/inbox"])]
 OPTS = [("strip_suffix", [False, True]), ("platform_aware", [False, True])]
 EXTRA = [
     ("t_case", ["", "host", "path", "query", "fragment", "all", "escapes"]),
@@ -16,15 +16,20 @@ EXTRA = [
     ("t_gl", ["", "gl=us", "hl=fr", "HL=fr", "gl", "hl="]),
     ("t_glpos", [0, 1, 2]),
 ]
-KEEP = ("t_scheme", "t_auth", "t_sub", "t_hostcase", "t_slash", "t_index", "t_frag", "t_item", "t_perm", "t_amp", "t_esc_path",
+KEEP = ("t_esc_frag", "t_dot", "t_scheme", "t_auth", "t_sub", "t_hostcase", "t_slash", "t_index", "t_frag", "t_item", "t_perm", "t_amp", "t_esc_path",
         "t_esc_query", "t_wrap")
 GRIDS = {}
+
+
+TRIM_BASE = [("b_host", B_HOST), ("b_path", ["", "/P/Q.html", "/embed/dQw4w9WgXcQ"]), ("b_query", [0, 1, 3]), ("b_frag", ["", "/home/inbox"])]
+DEEP_BASE = [("b_host", ["a.com", "facebook.com", "télérama.fr"]), ("b_path", ["", "/P/Q.html"]), ("b_query", [0, 1]), ("b_frag", ["", "/home/inbox"])]
 
 
 def the_grid(tier):
     if tier not in GRIDS:
         tg = [t for t in nvar.toggles("quick") if t[0] in KEEP]
-        GRIDS[tier] = grid.Grid("fingerprint-buckets", tg + EXTRA, free=BASE + OPTS)
+        base = {"quick": TRIM_BASE, "deep": DEEP_BASE}.get(tier, BASE)
+        GRIDS[tier] = grid.Grid("fingerprint-buckets" + ("" if tier == "thorough" else "-" + tier), tg + EXTRA, free=base + OPTS)
     return GRIDS[tier]
 
 
@@ -243,7 +248,12 @@ def run(chk):
         "'xx-yy' pairs (%s) on 3 bases; with strip_suffix the label re-attached to every non-wildcard bundled suffix."
         % (d, "all 249^2" if not quick else "249 x 9")
     )
-    failures, tags = grid.run(chk, g, d, evaluate, shrink=(g.wit, simplify, fails_fn), target=30000)
+    wg = the_grid("thorough")
+    failures, tags = grid.run(chk, g, 2, evaluate, shrink=(wg.wit, simplify, fails_fn), target=30000)
+    if not quick:
+        f_deep, t_deep = grid.run(chk, the_grid("deep"), 3, evaluate, shrink=(wg.wit, simplify, fails_fn), target=30000)
+        for k_, v_ in t_deep.items():
+            tags[k_] = tags.get(k_, 0) + v_
     n1 = chk.cov["states"]
     chk.clause(PROP + ".bucket", checked=n1, nontrivial=tags.get("nontrivial", 0))
     chk.clause(PROP + ".shape", checked=n1, nontrivial=tags.get("nontrivial", 0))
